@@ -69,7 +69,12 @@ TVEnd == /\ l <= Len(Rec) /\ Rec[l].ev = "end"
          /\ viol' = AddViol(viol, IF Rec[l].hang THEN {"C10/" \o ep \o "/calls-do-not-complete"} ELSE {}, cur)
          /\ l' = l + 1 /\ UNCHANGED <<pc, kinds, ep, judged, cur, free, flag, eff>>
 
-TVNext == TVReset \/ TVStart \/ TVSent \/ TVBeforeRecv \/ TVReceived \/ TVDone \/ TVPeer \/ TVEnd
+\* the process under test was killed by a signal while this case ran (recorded by the driver; `begin` marks the letter that
+\* was in progress): judged like any other observation -- whatever the property, an input that kills the process breaks it
+TVCrashAny == /\ l <= Len(Rec) /\ Rec[l].ev \in {"crash", "begin"}
+              /\ viol' = IF Rec[l].ev = "crash" THEN AddViol(viol, {"ANY/process-killed-by-signal-" \o Str(Rec[l].signal)}, Rec[l].id) ELSE viol
+              /\ l' = l + 1 /\ UNCHANGED <<pc, kinds, ep, judged, cur, free, flag, eff>>
+TVNext == TVReset \/ TVStart \/ TVSent \/ TVBeforeRecv \/ TVReceived \/ TVDone \/ TVPeer \/ TVEnd \/ TVCrashAny
 TVSpec == TVInit /\ [][TVNext]_tvars
 Post == PostOK
 Report == ReportAt(l, judged, viol)
